@@ -38,7 +38,19 @@ def _alarm(signum, frame):
     raise Timeout()
 
 
-def make_traj(T, base, n_atoms, cell=True):
+ZSTYLES = ("zerocell", "zerotail")
+
+
+def zero_frames(T, style):
+    """frames (file positions) whose unit cell is stored with zero lengths: a stretch at the head / at the tail of the file"""
+    if style == "zerocell":
+        return range(0, (T + 1) // 2)
+    if style == "zerotail":
+        return range(T - T // 2, T) if T > 1 else range(0, 1)
+    return range(0)
+
+
+def make_traj(T, base, n_atoms, cell=True, style="mdtraj"):
     top = md.Topology()
     ch = top.add_chain()
     for a in range(n_atoms):
@@ -50,7 +62,10 @@ def make_traj(T, base, n_atoms, cell=True):
             xyz[i, a] = ((base + i + 1) * 0.1, (a + 1) * 0.1, 0.05)
     t = md.Trajectory(xyz, top, time=np.arange(base, base + T, dtype=np.float32))
     if cell:
-        t.unitcell_lengths = np.array([[base + i + 2.0] * 3 for i in range(T)], dtype=np.float32)
+        ul = np.array([[base + i + 2.0] * 3 for i in range(T)], dtype=np.float32)
+        for i in zero_frames(T, style):
+            ul[i] = 0.0            # a box of zero size in SOME frames of the file (non-periodic stretch of a run)
+        t.unitcell_lengths = ul
         t.unitcell_angles = np.full((T, 3), 90.0, dtype=np.float32)
     return t
 
@@ -216,7 +231,7 @@ def make_file(fmt, T, base, n_atoms, d, cell=True, style="mdtraj"):
     tag = "" if style == "mdtraj" else "_" + style
     p = os.path.join(d, "f_%d_%d_%d_%d%s.%s" % (T, base, n_atoms, int(cell), tag, fmt))
     if not os.path.exists(p):
-        if style != "mdtraj":
+        if style != "mdtraj" and style not in ZSTYLES:
             HAND[fmt](p, T, base, n_atoms, cell, style)
         elif fmt == "hdf5":
             # the second registered extension of the HDF5 reader: same bytes as the .h5 file
@@ -229,7 +244,7 @@ def make_file(fmt, T, base, n_atoms, d, cell=True, style="mdtraj"):
         elif fmt == "arc":
             write_arc(p, T, base, n_atoms, cell)
         else:
-            make_traj(T, base, n_atoms, cell).save(p)
+            make_traj(T, base, n_atoms, cell, style).save(p)
     _made[key] = p
     return p
 
